@@ -20,10 +20,11 @@ pub struct Exc_void(std::ffi::c_void);
 /// `std::io::Error::last_os_error()`: reads errno, never panics
 pub assume_specification[ std::io::Error::last_os_error ]() -> std::io::Error;
 
-/// `<[T]>::as_ptr`: the address of the first element
+/// `<[T]>::as_ptr`: the address of the first element.  Only for NON-EMPTY slices: all empty slices are the same
+/// mathematical value (see `seq_addr`), so giving them an address would be contradictory.
 pub assume_specification<T>[ <[T]>::as_ptr ](s: &[T]) -> (p: *const T)
     ensures
-        p as int == slice_addr(s),
+        s@.len() > 0 ==> p as int == slice_addr(s),
 ;
 
 // ---- libc (foreign functions; the contracts say what a call MEANS, never that it succeeds) ---------------
@@ -148,10 +149,11 @@ pub assume_specification<T>[ <*mut T>::offset ](p: *mut T, count: isize) -> (r: 
         r as int == p as int + count * ptr_stride::<T>(),
 ;
 
-/// `std::slice::from_raw_parts_mut(p, len)`: the slice that starts at p and has len elements
+/// `std::slice::from_raw_parts_mut(p, len)`: the slice that starts at p and has len elements (address fact only for
+/// len > 0, same reason as `as_ptr`)
 pub assume_specification<'a, T>[ std::slice::from_raw_parts_mut ](p: *mut T, len: usize) -> (r: &'a mut [T])
     ensures
-        slice_addr(&*r) == p as int,
+        len > 0 ==> slice_addr(&*r) == p as int,
         r@.len() == len,
 ;
 
@@ -181,7 +183,7 @@ pub unsafe fn shim_posix_memalign(out: &mut *mut std::ffi::c_void, align: usize,
 #[verifier::external_body]
 pub unsafe fn shim_nonnull_slice(s: &mut [u8]) -> (r: std::ptr::NonNull<[u8]>)
     ensures
-        nonnull_slice_addr(r) == slice_addr(&*old(s)),
+        old(s)@.len() > 0 ==> nonnull_slice_addr(r) == slice_addr(&*old(s)),
         nonnull_slice_len(r) == old(s)@.len(),
 {
     std::ptr::NonNull::new_unchecked(s)
